@@ -139,7 +139,7 @@ def run_irregular(spec, res):
     dg = digest(spec)
     problems = []
 
-    def compare(f, who):
+    def compare(f, who, scaled=True):
         out = []
         keys = list(f.variables.keys())
         for k, raw in c['vars'].items():
@@ -159,8 +159,8 @@ def run_irregular(spec, res):
                                                    raw.shape[1:]))
                 continue
             if not np.allclose(got.astype('f8'), raw.astype('f8') *
-                               m['scale'], rtol=4 * np.finfo('f4').eps,
-                               atol=0):
+                               (m['scale'] if scaled else 1.0),
+                               rtol=4 * np.finfo('f4').eps, atol=0):
                 out.append('%s: %s does not hold the data of its own blocks '
                            '(times %s)' % (who, k, c['times'][k]))
         return out
@@ -182,6 +182,10 @@ def run_irregular(spec, res):
             f0 = bpch(path, **kw)
             res.hook('bpch.return')
             problems += compare(f0, 'default reader bpch')
+            f0r = bpch(path, noscale=True, **kw)
+            res.hook('bpch.return')
+            problems += compare(f0r, 'default reader bpch(noscale=True)',
+                                scaled=False)
         except Exception as e:
             res.hook('bpch.return')
             problems.append('default reader bpch raised %r' % (e,))
@@ -399,6 +403,20 @@ def run(spec, res):
                     p2.append('bpch2: %s differs from bpch1 (shapes %s / %s)'
                               % (k, a.shape, b.shape))
             problems += p2
+            # the front end asked for its block-walking reader, unscaled
+            from PseudoNetCDF.geoschemfiles import bpch
+            f3 = bpch(path, noscale=True, reader='bpch2', **kw)
+            res.hook('bpch.return')
+            for k, raw in c['vars'].items():
+                if k not in f3.variables.keys():
+                    continue
+                a = np.asarray(f3.variables[k][...])
+                if a.shape != raw.shape or not np.allclose(
+                        a.astype('f8'), raw.astype('f8'),
+                        rtol=4 * np.finfo('f4').eps, atol=0):
+                    problems.append("bpch(noscale=True, reader='bpch2'): %s "
+                                    'is not the raw data' % k)
+                    break
         except Exception as e:
             res.hook('bpch2.return')
             problems.append('bpch2 raised %r' % (e,))
